@@ -766,7 +766,13 @@ class ContextualLexer(Lexer):
             try:
                 last_token = lexer_state.last_token  # Save last_token. Calling root_lexer.next_token will change this to the wrong token
                 token = self.root_lexer.next_token(lexer_state, parser_state)
-                raise UnexpectedToken(token, e.allowed, state=parser_state, token_history=[last_token], terminals_by_name=self.root_lexer.terminals_by_name)
+                try:
+                    # What the parser would report if it were given this token. Unlike e.allowed, it includes $END.
+                    states = parser_state.parse_conf.parse_table.states
+                    expected = {s for s in states[parser_state.position] if s.isupper()}
+                except AttributeError:
+                    expected = e.allowed
+                raise UnexpectedToken(token, expected, state=parser_state, token_history=[last_token], terminals_by_name=self.root_lexer.terminals_by_name)
             except UnexpectedCharacters:
                 raise e  # Raise the original UnexpectedCharacters. The root lexer raises it with the wrong expected set.
 
